@@ -155,7 +155,7 @@ def _relational_only(case, ctx):
                   % (case["indices"], x, float(np.sum(vals[x])) * (n - 1),
                      float(np.sum(Mx[x, :]))))
         for y in range(n):
-            ctx.check(Mx[y, x] == -Mx[x, y], "matrix_antisymmetric",
+            ctx.check(abs(Mx[y, x] + Mx[x, y]) <= 1e-12 * max(1.0, abs(Mx[x, y])), "matrix_antisymmetric",
                       lambda: "M[%d,%d]=%r M[%d,%d]=%r" % (x, y, Mx[x, y], y, x, Mx[y, x]))
     total = sum(len(case["trains"][k]) for k in sel)
     if total > 0:
@@ -249,9 +249,9 @@ def run_case(case, ctx):
     M = np.asarray(M)
     ctx.check(M.shape == (nsel, nsel), "matrix_shape", lambda: "shape %r" % (M.shape,))
     for x in range(nsel):
-        ctx.check(M[x, x] == 0, "matrix_diagonal", lambda: "M[%d,%d]=%r" % (x, x, M[x, x]))
+        ctx.check(abs(M[x, x]) <= 1e-12, "matrix_diagonal", lambda: "M[%d,%d]=%r" % (x, x, M[x, x]))
         for y in range(x + 1, nsel):
-            ctx.check(M[y, x] == -M[x, y], "matrix_antisymmetric",
+            ctx.check(abs(M[y, x] + M[x, y]) <= 1e-12 * max(1.0, abs(M[x, y])), "matrix_antisymmetric",
                       lambda: "M[%d,%d]=%r M[%d,%d]=%r" % (x, y, M[x, y], y, x, M[y, x]))
             s = sum(D[(x, y)])
             n_sp = len(trs[sel[x]])
